@@ -133,8 +133,9 @@ theorem dir_of_single_traverse (enum : List (Bytes × FTree) → List (Bytes × 
 theorem extractMeta_v2 (o : CreateOpts) (hf : Bytes → FileHash)
     (enum : List (Bytes × FTree) → List (Bytes × FTree)) (henum : ∀ l, (enum l).Perm l)
     (t : Node) (hplain : PlainNamed t) (hname : Spec.plainName o.name = true)
-    (hns : ∀ d, t ≠ .dir [(o.name, .file d)])
     (r : BVal) (info : Dict) (pl : Nat) (hinfo : r.get? K.info = some (.dict info))
+    (hfk : dictHas info K.files = true → ∃ es, t = .dir es)
+    (hns : dictHas info K.files = false → ∀ d, t ≠ .dir [(o.name, .file d)])
     (hn : dictGet info K.name = some (.str o.name))
     (hplk : dictGet info K.pieceLength = some (.int pl))
     (hmv : dictGet info K.metaVersion = some (.int 2))
@@ -155,9 +156,16 @@ theorem extractMeta_v2 (o : CreateOpts) (hf : Bytes → FileHash)
   -- the converted tree and its records
   have key : ∃ tree es, treeOf o.name (singleLen t).isSome (treeVal hf (traverse enum t)) = .dict tree ∧
       toMetaEntries tree = .ok es ∧
-      extractV2 o.name es = (ftreeFiles [] (traverse enum t)).map (recV2 o.name hf) := by
+      (if dictHas info K.files then parseTree [o.name] es else extractV2 o.name es)
+        = (ftreeFiles [] (traverse enum t)).map (recV2 o.name hf) := by
     cases t with
     | file d =>
+      have hnf : dictHas info K.files = false := by
+        cases h : dictHas info K.files with
+        | false => rfl
+        | true => obtain ⟨es, e⟩ := hfk h; cases e
+      rw [hnf]
+      simp only [Bool.false_eq_true, if_false]
       refine ⟨[(o.name, leafVal hf d)], [(o.name, .file d.length (rootOpt hf d))], ?_, ?_, ?_⟩
       · simp [singleLen, treeOf, traverse, treeVal]
       · simp [toMetaEntries, toMetaTree_leafVal, bind, Except.bind]
@@ -172,8 +180,15 @@ theorem extractMeta_v2 (o : CreateOpts) (hf : Bytes → FileHash)
         metaList hf ((enum (traverseChildren enum es)).mergeSort leName), ?_,
         toMetaEntries_treeValList hf _ hpk, ?_⟩
       · simp [singleLen, treeOf, traverse, treeVal]
-      · have hmulti : extractV2 o.name (metaList hf ((enum (traverseChildren enum es)).mergeSort leName))
+      · have hmulti : (if dictHas info K.files then
+              parseTree [o.name] (metaList hf ((enum (traverseChildren enum es)).mergeSort leName))
+            else extractV2 o.name (metaList hf ((enum (traverseChildren enum es)).mergeSort leName)))
             = parseTree [o.name] (metaList hf ((enum (traverseChildren enum es)).mergeSort leName)) := by
+          cases hfiles : dictHas info K.files with
+          | true => simp
+          | false =>
+          have hns := hns hfiles
+          simp only [Bool.false_eq_true, if_false]
           unfold extractV2
           split
           · rename_i k len root heq
@@ -203,8 +218,9 @@ theorem extractMeta_v2 (o : CreateOpts) (hf : Bytes → FileHash)
   obtain ⟨tree, es, htree, hes, hfiles⟩ := key
   rw [htree] at hft
   refine ⟨⟨o.name, pl, some 2, piecesV2 info,
-    extractV2 o.name es, nameSet ((extractV2 o.name es).map (·.filename))⟩, ?_, rfl, rfl, rfl, rfl,
-    hfiles, rfl⟩
+    (if dictHas info K.files then parseTree [o.name] es else extractV2 o.name es),
+    nameSet ((if dictHas info K.files then parseTree [o.name] es else extractV2 o.name es).map
+      (·.filename))⟩, ?_, rfl, rfl, rfl, rfl, hfiles, rfl⟩
   simp only [extractMeta, RF.sub, hinfo, hplk, hn, RF.str, hmv, hft, hes, bind, Except.bind, pure,
     Except.pure, if_true]
 
